@@ -6,7 +6,8 @@ package writer
 // unsafe index name, and as last action: a truncated document, a missing
 // document line, an unsupported action without a newline) is sent through the real
 // handler, and once more with a blank last line when the body ends in a newline; the response must carry one item per action, and `errors` must be
-// true iff some item failed.  Independent of how the handler keeps its flags, so
+// true iff some item failed, and every item must carry the status of its own
+// action (413 for an oversized document only).  Independent of how the handler keeps its flags, so
 // it also decides a restructured body whose loop contract went stale.
 
 import (
@@ -25,6 +26,7 @@ type bndBulkKind struct {
 	lines    string
 	fails    bool
 	lastOnly bool // only meaningful as the last action of a body
+	status   int  // status the item must carry (0: derived from fails, 400 / 201)
 }
 
 func Test_Bounded_BulkErrorsFlag(t *testing.T) {
@@ -35,34 +37,35 @@ func Test_Bounded_BulkErrorsFlag(t *testing.T) {
 	idx := "bnd-c15-errors"
 	action := `{"index":{"_index":"` + idx + `"}}` + "\n"
 	kinds := []bndBulkKind{
-		{"good", action + `{"a":"one"}` + "\n", false, false},
-		{"unsupported-action", `{"delete":{"_index":"` + idx + `"}}` + "\n", true, false},
-		{"oversize-document", action + `{"a":"` + strings.Repeat("x", 64000) + `"}` + "\n", true, false},
-		{"malformed-document", action + `{"a":"broken", "b":}` + "\n", true, false},
-		{"unsafe-index-name", `{"index":{"_index":"../bnd-c15"}}` + "\n" + `{"a":"one"}` + "\n", true, false},
-		{"truncated-last-document", action + `{"a": tru`, true, true},
-		{"missing-last-document-line", action, true, true},
-		{"unsupported-action-without-newline", `{"delete":{"_index":"` + idx + `"}}`, true, true},
+		{"good", action + `{"a":"one"}` + "\n", false, false, 0},
+		{"unsupported-action", `{"delete":{"_index":"` + idx + `"}}` + "\n", true, false, 0},
+		{"oversize-document", action + `{"a":"` + strings.Repeat("x", 64000) + `"}` + "\n", true, false, 413},
+		{"malformed-document", action + `{"a":"broken", "b":}` + "\n", true, false, 0},
+		{"unsafe-index-name", `{"index":{"_index":"../bnd-c15"}}` + "\n" + `{"a":"one"}` + "\n", true, false, 0},
+		{"truncated-last-document", action + `{"a": tru`, true, true, 0},
+		{"missing-last-document-line", action, true, true, 0},
+		{"unsupported-action-without-newline", `{"delete":{"_index":"` + idx + `"}}`, true, true, 0},
 	}
 
-	itemFailed := func(item interface{}) bool {
+	itemStatus := func(item interface{}) int {
 		m, ok := item.(map[string]interface{})
 		if !ok {
 			t.Fatalf("unexpected item type %T", item)
 		}
 		if st, ok := m["status"]; ok {
-			return st.(int) != 201
+			return st.(int)
 		}
 		for _, v := range m {
 			if inner, ok := v.(map[string]interface{}); ok {
 				if st, ok := inner["status"]; ok {
-					return st.(int) != 201
+					return st.(int)
 				}
 			}
 		}
 		t.Fatalf("unexpected item shape %v", m)
-		return false
+		return 0
 	}
+	itemFailed := func(item interface{}) bool { return itemStatus(item) != 201 }
 
 	inputs := 0
 	var rec func(seq []int)
@@ -100,6 +103,18 @@ func Test_Bounded_BulkErrorsFlag(t *testing.T) {
 				t.Fatalf("BOUNDED-FAIL actions %v: item %d (%s) failed=%v, want %v", names, i, kinds[seq[i]].name, f, kinds[seq[i]].fails)
 			}
 			anyFailed = anyFailed || f
+			// an item carries the status of ITS OWN action: 413 for an oversized
+			// document only, 400 for every other failure, 201 when created
+			want := kinds[seq[i]].status
+			if want == 0 {
+				want = 201
+				if kinds[seq[i]].fails {
+					want = 400
+				}
+			}
+			if got := itemStatus(it); got != want {
+				t.Fatalf("BOUNDED-FAIL actions %v: item %d (%s) has status %d, want %d", names, i, kinds[seq[i]].name, got, want)
+			}
 		}
 		errorsFlag, ok := resp["errors"].(bool)
 		if !ok {
